@@ -24,11 +24,12 @@ func init() {
 			"(R8) sibling agreement (A14): the paired functions consist of the same operations - calls with their constant arguments, comparisons (canonical under negation and operand order), field reads/writes, channel operations, returns, each with the number of conditions it depends on - once the instance-specific names are mapped onto each other; logging is ignored, named differences are listed in the table: Run/Start/Signal of medium ~ low priority and the two clearance functions (the priorities differ only in their clearance channel and default delay); " +
 			"(R9) stop completion looks at the module's own counters (= C01-R7/C05-R3: checkIfStopComplete tests m.microTaskCnt, not the global count); " +
 			"(R10) the blocking variants return the panic error: the recovery handler of runMicroTask stores it to a named result (= C06-R1); " +
+			"(R11) a module's three activity counters are three different cells, and no counter (nor the global microtask count) is ever stored to, swapped or compare-and-swapped - only the paired +1/-1 of R2 change them; " +
 			"NOT decided: the concurrency bound under real races between the scheduler and finishing tasks, exactly-once execution over all schedules.",
 		Rules: []ruleFn{c15R1, c15R2, c15R3, c15R4,
 			c15R5, c15R6, borrowRule(c06R6, "C06-R6", "C15-R7", 3, nil), func(c *Ctx, r *Report) { siblingRule(c, r, "C15-R8", sibMicro) },
 			func(c *Ctx, r *Report) { stopCompletionRule(c, r, "C15-R9") },
-			borrowRule(c06R1, "C06-R1", "C15-R10", 2, func(s string) bool { return strings.Contains(s, "runMicroTask") })},
+			borrowRule(c06R1, "C06-R1", "C15-R10", 2, func(s string) bool { return strings.Contains(s, "runMicroTask") }), c15R11},
 	})
 }
 
